@@ -50,6 +50,23 @@ type Store struct {
 	rewrote []string // keys PUT again with different bytes
 	// Sched, when non-nil, is consulted before every request is served (see Scheduler).
 	Sched *Scheduler
+	// GlobalFault, when non-nil, decides the fate of the n-th request (0-based) the store receives,
+	// whichever client issues it.
+	GlobalFault func(n int, client, op, key string) error
+	nreq        int
+}
+
+// Requests returns how many requests the store has received so far.
+func (s *Store) Requests() int {
+	s.mu.Lock()
+	defer s.mu.Unlock()
+	return s.nreq
+}
+
+func (s *Store) ResetRequests() {
+	s.mu.Lock()
+	defer s.mu.Unlock()
+	s.nreq = 0
 }
 
 func NewStore() *Store { return &Store{objs: map[string][]byte{}} }
@@ -179,6 +196,16 @@ func (c *Client) pre(ctx context.Context, op, key string) (func(errs string, siz
 		err, es = awserr.New(request.CanceledErrorCode, "request context canceled", ctx.Err()), "ctx"
 	} else if c.Fault != nil {
 		if e := c.Fault(idx, midx, op, key); e != nil {
+			err, es = e, "fault"
+		}
+	}
+	c.S.mu.Lock()
+	gn := c.S.nreq
+	c.S.nreq++
+	gf := c.S.GlobalFault
+	c.S.mu.Unlock()
+	if err == nil && gf != nil {
+		if e := gf(gn, c.Name, op, key); e != nil {
 			err, es = e, "fault"
 		}
 	}
